@@ -284,11 +284,12 @@ def p_C02(ctx):
     return ctx.finish("every building of the MC_C02 lattice (TLC-enumerated, exhaustive for the configured value sets) is replayed on the real library; every numeric field of EnergyPerformance is compared with Balance!Evaluate; non-trivial = lattice cases (all have at least two carriers)")
 
 
-def unbounded(ctx, inv):
-    """thorough tier: the per-step, division-free part is discharged by Apalache for all naturals"""
+def unbounded(ctx, inv, module="Step"):
+    """thorough tier: the per-step, division-free part is discharged by Apalache for all naturals (Step), the promise of
+    set_meta for all strings (MetaApa)"""
     if ctx.quick:
         return
-    r = vlib.run_apalache("Step", inv)
+    r = vlib.run_apalache(module, inv)
     if not r["ok"]:
         raise ToolError("Apalache did not confirm %s" % inv)
     ctx.extra.setdefault("unbounded_obligations", []).append(r)
@@ -405,7 +406,9 @@ def p_C03(ctx):
 
 def p_C04(ctx):
     st = lattice(ctx)
-    runs = [{"tag": "base"}, {"tag": "a2", "area": [5, 2]}, {"tag": "a3", "area": [200, 1]}, {"tag": "a4", "area": [1, 2]}]
+    runs = [{"tag": "base"}, {"tag": "a2", "area": [5, 2]}, {"tag": "a3", "area": [200, 1]}, {"tag": "a4", "area": [1, 2]},
+            # a second history with load matching (the breakdowns by source and by service are then shares of a reduced total)
+            {"tag": "base-lm", "lm": True}, {"tag": "a2-lm", "area": [5, 2], "lm": True}]
     def base_area(cs):
         for c in cs:
             c = dict(c)
@@ -887,18 +890,18 @@ def p_C19(ctx):
     trace19 = ctx.last_trace
     # the program state machine (spec/Program.tla): a run refused with 1 / 64 / 65 leaves no result
     pst = ctx.mc("MC_Program", "MC_Program_quick.cfg" if ctx.quick else "MC_Program_thorough.cfg", timeout=3000)
-    cli_replay(ctx, cli.prog_case, list(stride(vlib.mc_cases(pst), 1 if ctx.quick else 3, 0)), "program", "Trace_Prog19")
+    cli_replay(ctx, cli.prog_case, list(stride(vlib.mc_cases(pst), 1 if ctx.quick else 12, 0)), "program", "Trace_Prog19")
     ctx.extra["program_configurations"] = ctx.ncases - n19
     ctx.extra["program_conformance_drift"] = len(ctx.drifts)
     ctx.last_trace = trace19
     ctx.nontrivial = set(range(ctx.ncases))
-    ctx.extra["exhaustive"] = not ctx.quick
+    ctx.extra["exhaustive"] = False
     ev = [json.loads(l) for l in open(ctx.last_trace).readlines()[100:103]]
     ctx.samples = [{"cfg": e["cfg"], "argv": e["argv"], "observed": {k: e["obs"][k] for k in ("exit", "origen", "oc")}} for e in ev]
     ctx.assumptions = ["the driver builds the components file, the factors file and argv from the configuration (driver/cli.py) and projects stdout / --json / --oc to the event; it makes no comparison",
                        "where the statement is silent (invalid metadata overridden by a valid option; invalid RED1/RED2 metadata) Cli!Allowed accepts both refusal (65) and ignoring it",
                        "-f together with --red1/--red2 is accepted by the tool (only -f with -l is refused by the option parser): the option wins over the file, as the statement says"]
-    return ctx.finish("every configuration TLC enumerates from spec/Cli.tla (quick: the complete area x k_exp product and the complete location x RED1 x RED2 product, the other half by a covering function - 3538 runs; thorough: the complete product, 607 500 runs) is executed by the real binary (debug profile); exit code, the three origin lines, effective k_exp / area / RED1 / RED2 in --json, write-back in --oc metadata and the per-m2 ratio are judged by TLC against Cli!Allowed")
+    return ctx.finish("every configuration TLC enumerates from spec/Cli.tla (quick: the complete area x k_exp product and the complete location x RED1 x RED2 product, the other half by a covering function - some 6 500 runs; thorough: every area / k_exp quadruple with one eighth of the other parameters and the complete rest for the 36 quadruples without invalid value - some 340 000 runs) is executed by the real binary (debug profile); exit code, the three origin lines, effective k_exp / area / RED1 / RED2 in --json, write-back in --oc metadata and the per-m2 ratio are judged by TLC against Cli!Allowed")
 
 
 def render_abs(comps):
@@ -980,9 +983,17 @@ def p_C16(ctx):
             opts.append({"kind": "option", "argv": ["--red1", a, b, "0.3", "--red2", b, "1", a]})
     cli_replay(ctx, cli.fault_cli_case, recs + texts + opts, "cli", "Trace_C16")
     last_cli = ctx.last_trace
+    # the spellings of a (ren, nren, co2) triple (spec/Triple.tla): every text TLC builds is read by RenNrenCo2::from_str and,
+    # as a CTE_RED1 metadata value, by get_meta_rennren - never a panic; the outcome against Triple!ParseTriple is DRIFT
+    tst = ctx.mc("MC_Triple", "MC_Triple_quick.cfg" if ctx.quick else "MC_Triple_thorough.cfg", timeout=3000)
+    nt, nd0 = ctx.ncases, len(ctx.drifts)
+    ctx.replay(stride(vlib.mc_cases(tst), 4 if ctx.quick else 1, ctx.seed % 4 if ctx.quick else 0), "triples", "Trace_Triple", mode="triple",
+               keep=lambda c: {"text": c["text"]})
+    ctx.extra["triple_texts"] = ctx.ncases - nt
+    ctx.extra["triple_grammar_drift"] = len(ctx.drifts) - nd0
     # the program state machine (spec/Program.tla): unreadable / empty / foreign inputs, unwritable outputs, flags
     pst = ctx.mc("MC_Program", "MC_Program_quick.cfg" if ctx.quick else "MC_Program_thorough.cfg", timeout=3000)
-    progs = list(vlib.mc_cases(pst))
+    progs = list(stride(vlib.mc_cases(pst), 1 if ctx.quick else 6, 0))
     nd = len(ctx.drifts)
     cli_replay(ctx, cli.prog_case, progs, "program", "Trace_Prog16")
     ctx.extra["program_configurations"] = len(progs)
@@ -1133,6 +1144,14 @@ def p_C17(ctx):
     if not res["accepted"]:
         ctx.rejected = True
     shutil.rmtree(tmp, ignore_errors=True)
+    # the program state machine (spec/Program.tla) from the configurations in which an output path already holds a
+    # document: a file the run writes holds nothing of it afterwards (FreshWhenWritten at model level)
+    pst = ctx.mc("MC_Program", "MC_Program_quick.cfg" if ctx.quick else "MC_Program_thorough.cfg", timeout=3000)
+    overs = [c for c in stride(vlib.mc_cases(pst), 1 if ctx.quick else 6, 0) if "over" in c["cfg"]["out"].values()]
+    nd = len(ctx.drifts)
+    cli_replay(ctx, cli.prog_case, overs, "program-over", "Trace_Prog17")
+    ctx.extra["program_configurations_with_existing_outputs"] = len(overs)
+    ctx.extra["program_conformance_drift"] = len(ctx.drifts) - nd
     ctx.nontrivial = set(range(ctx.ncases))
     e0 = json.loads(open(merged).readline())
     ctx.samples = [{"case": e0["case"], "xml_tokens_head": e0["doc"]["xml"][:8], "plain_entries_head": e0["doc"]["plain"][:8], "json": {k: e0["doc"]["json"][k] for k in ("valid", "reread", "ncomps", "nfac")}}]
@@ -1185,13 +1204,30 @@ def p_C18(ctx):
         for c in cs:
             c.update({"fac": {"mode": "loc", "loc": "PENINSULA"}, "kexp": [0, 1], "area": [1, 1], "lm": False})
             yield c
-    ctx.replay(rt(evalable(stride(vlib.mc_cases(c06), 12 if ctx.quick else 2))), "aux-family", "Trace_C18")
+    def tiny(cs):
+        # every other system of the family once more with the consumption of ONE of its services below the printed
+        # precision (0.004 kWh at every step: written as 0.00): the service is still one of the system's services
+        for k, c in enumerate(cs):
+            yield c
+            if k % 2 == 0:
+                comps = c["src"].get("comps") or []
+                ids = {x["id"] for x in comps if x["kind"] == "AUX"}
+                first = next((x for x in comps if x["kind"] == "USED" and x["id"] in ids and any(v for v in x["v"])), None)
+                if first is not None and len({x["srv"] for x in comps if x["kind"] == "USED" and x["id"] == first["id"]}) > 1:
+                    c2 = json.loads(json.dumps(c))
+                    for x in c2["src"]["comps"]:
+                        if x["kind"] == "USED" and x["id"] == first["id"] and x["srv"] == first["srv"]:
+                            x["v"] = [0.004] * len(x["v"])
+                    c2["name"] = "tiny-consumption"
+                    yield c2
+    ctx.replay(rt(tiny(evalable(stride(vlib.mc_cases(c06), 12 if ctx.quick else 2)))), "aux-family", "Trace_C18")
     # three-decimal values exercise the rounding of the printed form
     three = [{"src": {"text": "0, CONSUMO, ILU, ELECTRICIDAD, 1.005, 0.125\n0, PRODUCCION, EL_INSITU, 2.675, 0.004\n1, CONSUMO, ACS, EAMBIENTE, 3.333, 1.115\nDEMANDA, ACS, 4.445, 1.005"},
               "fac": {"mode": "file", "path": REPO + "/test_data/factores_paso_test.csv"}, "kexp": [1, 2], "area": [1, 1], "lm": False}]
     ctx.replay(rt(three), "three-decimals", "Trace_C18")
     # --- the metadata store (spec/MetaStore.tla): every behaviour TLC enumerates - load a text, set_meta, save + reload -
     # is made on a real Components and a real Factors value; Trace_Meta carries the store of the specification
+    unbounded(ctx, "SetPost", module="MetaApa")
     stm = ctx.mc("MC_Meta", "MC_Meta_quick.cfg" if ctx.quick else "MC_Meta_thorough.cfg", timeout=3000)
     n0 = ctx.ncases
     ctx.replay(stride(vlib.mc_cases(stm), 4 if ctx.quick else 1, ctx.seed % 4 if ctx.quick else 0), "meta", "Trace_Meta", mode="meta",
@@ -1281,8 +1317,11 @@ def p_C15(ctx):
             {"tag": "a1000", "area": [1000, 1]}, {"tag": "s64a1000", "scale": [1, 64], "area": [1000, 1]},
             {"tag": "no-nepb", "drop": "nepb"}, {"tag": "no-other", "drop": "other-nonelectric"}]
     def cfg(cs):
-        for c in cs:
-            c.update({"fac": {"mode": "loc", "loc": "PENINSULA", "red1": [500, 500, 100]}, "kexp": [0, 1], "area": [1, 1], "lm": False, "runs": runs})
+        # the district network RED1 half renewable (user factor) or, for every other mix, with the documented default
+        # (0, 1.3, 0.3): a network without any renewable part
+        for i, c in enumerate(cs):
+            fac = {"mode": "loc", "loc": "PENINSULA", "red1": [500, 500, 100]} if i % 2 == 0 else {"mode": "loc", "loc": "PENINSULA"}
+            c.update({"fac": fac, "kexp": [0, 1], "area": [1, 1], "lm": False, "runs": runs})
             yield c
     def select(cs):
         # quick tier: one mix in 29, but one in 5 of the mixes that have a rare dimension (idle DHW electricity line,
